@@ -12,7 +12,9 @@ fn main() {
             driver::install();
             let (n, ok) = litmus::main(1500, std::env::var("VCHECK_VERBOSE").is_ok());
             println!("litmus: {}/{} shapes have the C++20 verdict", ok, n);
-            if ok == n {
+            let (cases, same) = driver::determinism_selftest(60);
+            println!("determinism: {}/{} sampled E1 cases gave identical decisions, step counts and traces when run twice", same, cases);
+            if ok == n && same == cases {
                 0
             } else {
                 1
